@@ -75,6 +75,20 @@ fn offending(tier: Tier) -> Vec<(String, Vec<String>, Vec<u8>)> {
             }
         }
     }
+    // a header-section line that consists of white space only (it begins with white space: the
+    // obsolete line-folding shape without anything folded): as the only line, after a header,
+    // before a header; what follows the head is again arranged to be found by a misreading
+    for (wn, line) in [("sp", " "), ("tab", "\t"), ("sp-sp", "  "), ("sp-tab-sp", " \t "), ("vt", "\x0b"), ("ff", "\x0c")] {
+        for shape in 0..3 {
+            let lines: Vec<String> = match shape {
+                0 => vec![line.to_string()],
+                1 => vec!["X-First: 1".to_string(), line.to_string()],
+                _ => vec![line.to_string(), "Content-Length: 5".to_string()],
+            };
+            let follow = if shape == 2 { after_cl5.clone() } else { SMUGGLED.to_vec() };
+            v.push((format!("ws-only-line:{}", wn), lines, follow));
+        }
+    }
     // Content-Length values that are not a plain representable decimal number
     let cl_values: Vec<(&str, &str)> = vec![
         ("empty", ""),
@@ -220,7 +234,7 @@ impl Check for C16 {
     fn rule(&self, tier: Tier) -> String {
         let classes: std::collections::BTreeSet<String> = offending(tier).into_iter().map(|o| o.0).collect();
         format!(
-            "headers Content-Length / Transfer-Encoding / Host / X-A with SP{} inserted before the name, inside it, or before the colon, alone, after another header (obsolete line-folding shape) and with a framing companion; Content-Length values {{empty, +5, -5, -0, 5a, a5, 0x5, '5 5', '5,5', '5, 5', 5.0, abc, 2^64, 30 nines}} with and without a chunked companion; each at position 1..{} of a pipeline and followed by bytes arranged so that every possible misreading finds the request `GET /smuggled`; every offending request also after a history of 64 / 100 / 1024 (thorough: 19 lengths from 63 to 4097) answered exchanges; {} conversations in {} classes; expected: earlier answers, then 400 and end-of-stream, neither the offending request nor `GET /smuggled` delivered",
+            "headers Content-Length / Transfer-Encoding / Host / X-A with SP{} inserted before the name, inside it, or before the colon, alone, after another header (obsolete line-folding shape) and with a framing companion; a header-section line of white space only (SP, HTAB, mixed, VT, FF; alone, after and before a header); Content-Length values {{empty, +5, -5, -0, 5a, a5, 0x5, '5 5', '5,5', '5, 5', 5.0, abc, 2^64, 30 nines}} with and without a chunked companion; each at position 1..{} of a pipeline and followed by bytes arranged so that every possible misreading finds the request `GET /smuggled`; every offending request also after a history of 64 / 100 / 1024 (thorough: 19 lengths from 63 to 4097) answered exchanges; {} conversations in {} classes; expected: earlier answers, then 400 and end-of-stream, neither the offending request nor `GET /smuggled` delivered",
             if full(tier) { "/HTAB/VT/FF" } else { "" }, if full(tier) { 3 } else { 2 }, cases(tier).len(), classes.len()
         )
     }
